@@ -292,9 +292,17 @@ func c13ERandomWorld(r *Rng, dir string) *c13EWorld {
 	return w
 }
 
+// option combinations that must not change which function a sample is attributed to
+var c13EExtras = [][]string{nil, nil, {"-cum"}, {"-functions"}, {"-compact_labels"}, {"-unit=count"}, {"-cum", "-functions", "-trim=false"},
+	{"-nodecount=5000", "-call_tree"}}
+
 func c13EEmit(c *Ctx, gen string, w *c13EWorld, mode, format string, tags ...string) {
-	in := w.term(mode, format)
-	obs := w.run(mode, format)
+	var extra []string
+	if gen == "e2e-random" {
+		extra = c13EExtras[c.R.Intn(len(c13EExtras))]
+	}
+	in := w.term(mode, format, extra)
+	obs := w.run(mode, format, extra)
 	c.Case(gen, in, obs, len(w.profiles) > 0, append([]string{"op:e2e", "e2e:" + format, "e2e-mode:" + mode}, tags...)...)
 }
 
